@@ -3,6 +3,7 @@ import json
 import random
 
 import core
+import progrun
 import gen_lines
 from worker import Worker, Oracle
 
@@ -25,6 +26,7 @@ def run(ctx):
     rng = random.Random(ctx.seed)
     w = Worker()
     oracles = {v: Oracle(v) for v in VERS}
+    progrun.apply(ctx, "diff_tables311", "exception/position tables")
     try:
         N = 80 if not ctx.thorough else 2500
         first = 20000
